@@ -205,3 +205,22 @@ def run(ctx: Ctx, rep: Report, tier: str):
     c.r4()
     c.r5()
     r6(ctx, rep)
+    rep.rule("C02.R7", "adopting a file that was already in the way (CloudFileExistsError arm of create_synced) records it as UNSYNCED foreign content: its id and current "
+             "hash are stored, its last-synced markers are not touched, so the next step sees a conflict instead of uploading over it", 2)
+    cs_ = ctx.prog.func("SyncManager.create_synced")
+    from sa.util import side_names
+    from sa.sides import SideAnalysis
+    chn, syn = side_names(ctx, cs_, SideAnalysis(ctx))
+    if syn is None:
+        chn, syn = side_names(ctx, cs_)
+    sy = cs_.params()[2]
+    hs = [h for t in ctx.own_nodes(cs_) if isinstance(t, ast.Try) for h in t.handlers if h.type is not None and "CloudFileExistsError" in ast.unparse(h.type)]
+    if not hs:
+        raise AnalysisError("create_synced: CloudFileExistsError handler not found")
+    for h in hs:
+        stores = [x for b in h.body for x in ast.walk(b) if isinstance(x, ast.Assign) and isinstance(x.targets[0], ast.Attribute) and pat.match("%s[%s]" % (sy, syn), x.targets[0].value) is not None]
+        attrs = {x.targets[0].attr for x in stores}
+        rep.check("C02.R7", "create_synced|adopt|records", ctx.line(cs_, h), {"oid", "hash"} <= attrs, "stores %s of the file in the way" % sorted(attrs),
+                  "the adopted file's id / current hash are not recorded (stores: %s)" % sorted(attrs))
+        rep.check("C02.R7", "create_synced|adopt|stays-unsynced", ctx.line(cs_, h), not ({"sync_hash", "sync_path"} & attrs), "last-synced markers untouched",
+                  "the adopted foreign file is booked as already synced (%s stored): its content is overwritten by the next upload without a conflict" % sorted({"sync_hash", "sync_path"} & attrs))
